@@ -2,7 +2,8 @@ import GateModel.Base.Line
 import GateModel.C08.Model
 /-
 C08 driver.  Case line (see harness/c08/main.go):
-  login <proto> online=<0|1> pre=<a|d|n|f> sess=<code> <input> …\t<observation>
+  login <proto> online=<0|1> pre=<a|d|n|f> sess=<code> msgs=<k> <input> …\t<observation>
+  shape state-before-prelogin\t<1|0>
 The model replays the scenario and prints the transcript the fake client must have seen; the verdict is the
 executable spec evaluated on the IMPLEMENTATION's observation:
   viol:admitted-without-auth     LoginSuccess / registration although the client did not go through
@@ -11,6 +12,7 @@ executable spec evaluated on the IMPLEMENTATION's observation:
   viol:out-of-order-not-closed   a packet that is out of order / repeated / foreign was not answered by closing,
                                  or an admission followed it
   viol:double-success            more than one LoginSuccess
+  viol:state-assignment-after-prelogin   (shape) handleServerLogin no longer leaves loginPacketExpected before PreLogin fires
   viol:hang
 -/
 namespace Gate.C08
@@ -29,6 +31,7 @@ structure Sim where
   admitted : Bool := false
   sawEOF   : Bool := false
   hung     : Bool := false
+  unanswered : List Int := []     -- plugin messages the client has received and not answered
   k        : Nat := 0
 
 def reasonClass : Reason → String
@@ -37,6 +40,8 @@ def reasonClass : Reason → String
 
 def absorb (s : Sim) : Out → Sim
   | .preLoginEvent _ => { s with ev := s.ev ++ ["pre"] }
+  | .pluginMsg id => { s with pending := s.pending ++ ["PluginMsg:" ++ toString id] }
+  | .consumed _ => { s with ev := s.ev ++ ["cons"] }
   | .encReq t => { s with pending := s.pending ++ ["EncReq"], clientTok := some t }
   | .encOn _ => s
   | .hasJoined n _ => { s with joins := s.joins ++ [toHex n ++ ":1"] }
@@ -48,16 +53,22 @@ def absorb (s : Sim) : Out → Sim
   | .disconnect r => { s with pending := s.pending ++ ["Disc:" ++ reasonClass r] }
   | .close => s
 
-/-- the client's wait: read until EncryptionRequest / LoginSuccess / EOF -/
-def waitRead (s : Sim) : Sim :=
-  let rec go : List String → List String → Option (List String × List String)
-    | [], _ => none
-    | p :: ps, acc =>
-      if p.startsWith "Success" || p.startsWith "EncReq" then some (acc ++ ["<" ++ p], ps) else go ps (acc ++ ["<" ++ p])
-  match go s.pending [] with
-  | some (read, rest) => { s with tr := s.tr ++ read, pending := rest }
-  | none =>
-    let s := { s with tr := s.tr ++ s.pending.map ("<" ++ ·), pending := [] }
+/-- the client's wait: read until EncryptionRequest / LoginSuccess / EOF, or (after a login start) until
+    `kStop` plugin messages have arrived -/
+def waitRead (s : Sim) (kStop : Nat) : Sim :=
+  let rec go : List String → Sim → Nat → Sim × Bool
+    | [], s, _ => (s, false)
+    | p :: ps, s, got =>
+      let s := { s with tr := s.tr ++ ["<" ++ p], pending := ps }
+      if p.startsWith "Success" || p.startsWith "EncReq" then (s, true)
+      else if p.startsWith "PluginMsg:" then
+        let id := ((p.drop 10).toString.toInt?).getD 0
+        let s := { s with unanswered := s.unanswered ++ [id] }
+        if kStop > 0 && got + 1 == kStop then (s, true) else go ps s (got + 1)
+      else go ps s got
+  match go s.pending s 0 with
+  | (s, true) => s
+  | (s, false) =>
     if s.st.phase == .closed then { s with tr := s.tr ++ ["<EOF"], sawEOF := true }
     else { s with tr := s.tr ++ ["<hang"], sawEOF := true, hung := true }
 
@@ -80,13 +91,21 @@ def parseInput (s : Sim) (tok : String) : Option In :=
   | ["A"] => some .ack
   | _ => none
 
-def simulate (cfg : Cfg) (env : Env) (inputs : List String) : Option Sim :=
+def simulate (cfg : Cfg) (env : Env) (msgs : Nat) (inputs : List String) : Option Sim :=
   inputs.foldlM (fun (s : Sim) tok => do
     let i ← parseInput s tok
     let s := { s with tr := s.tr ++ [">" ++ toString s.k], k := s.k + 1 }
     let r := step cfg env s.st i
     let s := r.2.foldl absorb { s with st := r.1 }
-    pure (if tok.startsWith "L" || tok.startsWith "E" then waitRead s else s)) {}
+    if tok.startsWith "L" then pure (waitRead s msgs)
+    else if tok.startsWith "E" then pure (waitRead s 0)
+    else match i with
+      | .pluginResp id =>
+        if s.unanswered.contains id then
+          let s := { s with unanswered := s.unanswered.filter (· != id) }
+          pure (if s.unanswered.isEmpty then waitRead s 0 else s)
+        else pure s
+      | _ => pure s) {}
 
 def showL (xs : List String) : String := if xs.isEmpty then "-" else ",".intercalate xs
 
@@ -104,6 +123,18 @@ def fieldOf (obs name : String) : String :=
   | some f => (f.drop (name.length + 1)).toString
   | none => ""
 
+def svcName (n : Bytes) : Bool := n.take 3 == [115, 118, 99]
+
+def mkCfg (online : Bool) (pre : String) (msgs : Nat) : Cfg :=
+  { onlineMode := online
+    preLogin := fun n => if svcName n then .forceOffline else
+      match pre with | "pre=d" => .denied | "pre=n" => .forceOnline | "pre=f" => .forceOffline | _ => .allowed
+    preMsgs := fun _ => msgs }
+
+def nameOf (tok : String) : Bytes :=
+  let h := (tok.drop 2).toString
+  (parseHex (if h = "" then "-" else h)).getD []
+
 def verdict (cfg : Cfg) (sessCode : String) (inputs : List String) (impl : String) : String :=
   if (impl.splitOn "hang").length > 1 then "viol:hang" else
   let toks := (impl.splitOn " ").filter (fun t => t.startsWith ">" || t.startsWith "<")
@@ -112,51 +143,65 @@ def verdict (cfg : Cfg) (sessCode : String) (inputs : List String) (impl : Strin
   let joins := fieldOf impl "join"
   let closed := fieldOf impl "end" == "closed"
   if succ.length > 1 then "viol:double-success" else
+  let posOf (t : String) : Nat := toks.findIdx (· == t)
+  let succPos : Nat := toks.findIdx (·.startsWith "<Success")
+  let encReqPos : Nat := posOf "<EncReq"
   -- the non-plugin inputs with their indices
   let idx := (List.range inputs.length).zip inputs
   let np := idx.filter (fun (_, t) => !t.startsWith "P")
-  let want : List String := if needsAuth cfg then ["L", "E"] else ["L"]
-  -- first input that is out of order / repeated / foreign
+  -- the packet order a connection may follow: one login start, then (if that name must authenticate) one
+  -- encryption response, sent after the EncryptionRequest was received; everything else is out of order
+  let firstNeeds : Bool := match np with
+    | (_, t) :: _ => t.startsWith "L:" && needsAuth cfg (nameOf t)
+    | [] => false
+  let want : List String := if firstNeeds then ["L", "E"] else ["L"]
   let kinds := np.map (fun (i, t) => (i, (t.take 1).toString))
   let dev : Option Nat :=
     let rec go : List (Nat × String) → List String → Option Nat
       | [], _ => none
       | (i, _) :: _, [] => some i
-      | (i, k) :: r, w :: ws => if k == w then go r ws else some i
+      | (i, k) :: r, w :: ws =>
+        if k == w && (k != "E" || encReqPos < posOf (">" ++ toString i)) then go r ws else some i
     go kinds want
-  -- position of a transcript token
-  let posOf (t : String) : Nat := toks.findIdx (· == t)
-  let succPos : Nat := toks.findIdx (·.startsWith "<Success")
   let admitted := !succ.isEmpty || ev.contains "disc:ok"
   let orderBad : Bool := match dev with
     | some j => !closed || (succPos < toks.length && posOf (">" ++ toString j) < succPos)
     | none => false
   if orderBad then "viol:out-of-order-not-closed" else
-  if admitted && needsAuth cfg then
-    -- what was sent before the LoginSuccess was read
-    let before := np.filter (fun (i, _) => posOf (">" ++ toString i) < succPos)
+  -- the admitted username, as the client was told
+  let admName : Option Bytes := match succ with
+    | [t] => match t.splitOn ":" with
+      | [_, _, h, _] => parseHex (if h = "" then "-" else h)
+      | _ => none
+    | _ => none
+  let before := np.filter (fun (i, _) => posOf (">" ++ toString i) < succPos)
+  if admitted && (match admName with | some n => needsAuth cfg n | none => firstNeeds) then
     match before with
     | [(i0, l), (i1, e)] =>
       let name := (l.drop 2).toString
-      let okShape := l.startsWith "L:" && e == "E:v:k" &&
-        (match parseHex (if name = "" then "-" else name) with | some n => validName n | none => false)
-      let encReqBetween := posOf (">" ++ toString i0) < posOf "<EncReq" && posOf "<EncReq" < posOf (">" ++ toString i1)
+      let okShape := l.startsWith "L:" && e == "E:v:k" && validName (nameOf l) && needsAuth cfg (nameOf l)
+      let encReqBetween := posOf (">" ++ toString i0) < encReqPos && encReqPos < posOf (">" ++ toString i1)
       let joinOk := joins == name ++ ":1" && sessCode == "j"
       let succOk := succ == ["<Success:on:" ++ name ++ ":reg1"]
       if okShape && encReqBetween && joinOk && succOk then "ok" else "viol:admitted-without-auth"
     | _ => "viol:admitted-without-auth"
+  else if admitted then
+    -- offline admission: exactly one login start, and it carries the admitted name
+    match before, admName with
+    | [(_, l)], some n => if l.startsWith "L:" && nameOf l == n then "ok" else "viol:admitted-without-auth"
+    | _, _ => "viol:admitted-without-auth"
   else "ok"
 
 def step' (c : Case) : String × String :=
   match c.op, c.args with
-  | "login", _proto :: on :: pre :: sess :: inputs =>
-    let cfg : Cfg := { onlineMode := on == "online=1",
-                       preLogin := match pre with
-                         | "pre=d" => .denied | "pre=n" => .forceOnline | "pre=f" => .forceOffline | _ => .allowed }
+  | "shape", _ => ("1", if c.impl == "1" then "ok" else "viol:state-assignment-after-prelogin")
+  | "login", _proto :: on :: pre :: sess :: msgs :: inputs =>
+    let k := ((msgs.drop 5).toString.toNat?).getD 0
+    let cfg := mkCfg (on == "online=1") pre k
     let code := (sess.drop 5).toString
     -- the account the client joined the session server with: its first login name (code j) / another name (code o)
     let first : Bytes := match inputs.find? (·.startsWith "L:") with
-      | some t => (parseHex (let h := (t.drop 2).toString; if h = "" then "-" else h)).getD []
+      | some t => nameOf t
       | none => []
     let env : Env := ⟨fun n s =>
       match code with
@@ -164,7 +209,7 @@ def step' (c : Case) : String × String :=
       | "o" | "n" | "u" | "m" => .offline
       | "e" => .error
       | _ => .badProfile⟩
-    match simulate cfg env inputs with
+    match simulate cfg env k inputs with
     | some s => (finish s, verdict cfg code inputs c.impl)
     | none => ("bad-op", "-")
   | _, _ => ("bad-op", "-")
